@@ -129,9 +129,12 @@ class C08Check(StatCheck):
         out.append({"k": 1, "N": 30})
         out.append({"k": 3, "N": 30})
         out.append({"k": 2, "N": 100, "sparse": True})
+        out.append({"k": 20, "N": 60, "sparse": True})      # larger reservoirs: a bias confined to big k
+        out.append({"k": 50, "N": 150, "sparse": True})
         if tier == "thorough":
             out.append({"k": 5, "N": 100, "sparse": True})
             out.append({"k": 10, "N": 60, "sparse": True})
+            out.append({"k": 100, "N": 300, "sparse": True})
             out = out * 3        # three independent seed batches per cell
         return out
 
@@ -139,6 +142,8 @@ class C08Check(StatCheck):
         base = 40000 if tier == "quick" else 1000000
         if cell["N"] >= 30:
             base //= 4
+        if cell["N"] >= 150:
+            base //= 2
         return base
 
     def sample(self, cell, R, rs):
@@ -215,9 +220,12 @@ class C09Check(StatCheck):
                 Ns = [k + 3, k + 10] if tier == "quick" else [k + 1, k + 3, k + 10, k + 40]
                 for N in Ns:
                     out.append({"k": k, "p": p, "N": N})
+        out.append({"k": 10, "p": None, "N": 30})
+        out.append({"k": 20, "p": [3, 10], "N": 40})
         if tier == "thorough":
             out.append({"k": 10, "p": None, "N": 50})
             out.append({"k": 10, "p": [1, 1], "N": 30})
+            out.append({"k": 100, "p": None, "N": 140, "sparse": True})
             out = out * 2
         return out
 
@@ -272,7 +280,10 @@ class C09Check(StatCheck):
             det = ("frozen-reservoir-changed", "p=0 but the content changed %d times after the fill" % frozen_changes)
         fam = Family()
         q = 1.0 - pv / k
-        for n in range(k + 1, N + 1):
+        ns_test = range(k + 1, N + 1)
+        if cell.get("sparse"):
+            ns_test = sorted({k + 1, k + 2, k + 5, (k + N) // 2, N})
+        for n in ns_test:
             for t in range(1, n + 1):
                 law = q ** (n - k) if t <= k else pv * q ** (n - t)
                 fam.add("retention:k=%d:p=%s:n=%d:t=%d" % (k, p, n, t), ret[n][t], R, law)
